@@ -42,6 +42,7 @@ func init() {
 	mutExtra["list-scan-target-hoisted-fatal-errors"] = [2]string{"			for prefixRows.Next() {", "			var child []byte\n			for prefixRows.Next() {"}
 	addSelfTests("C17",
 		mutation{"list-scan-target-hoisted-fatal-errors", "kv/sqlite3/provider.go", "				var child []byte\n				if err := prefixRows.Scan(&child); err != nil {\n					prefixRows.Close()", "				if err := prefixRows.Scan(&child); err != nil {\n					prefixRows.Close()", "!export-fresh"},
+		mutation{"rangekeys-ignores-iteration-error", "kv/sqlite3/provider.go", "	return keys, rows.Err()", "	return keys, nil", "rows-complete"},
 		mutation{"removekeys-table-driven", "kv/sqlite3/provider.go", "			if _, err := tx.Exec(\"DELETE FROM `simple_entries` WHERE `key` IN (\"+ph+\")\", args...); err != nil {\n				return err\n			}\n			if _, err := tx.Exec(\"DELETE FROM `prefix_entries` WHERE `prefix` IN (\"+ph+\")\", args...); err != nil {\n				return err\n			}\n			if _, err := tx.Exec(\"DELETE FROM `lease_entries` WHERE `owner` IN (\"+ph+\")\", args...); err != nil {\n				return err\n			}\n			if _, err := tx.Exec(\"DELETE FROM `key_trackers` WHERE `key` IN (\"+ph+\")\", args...); err != nil {\n				return err\n			}", "			for _, target := range removeKeysTargets {\n				query := \"DELETE FROM `\" + target.table + \"` WHERE `\" + target.column + \"` IN (\" + ph + \")\"\n				if _, err := tx.Exec(query, args...); err != nil {\n					return err\n				}\n			}", "!table-coverage"},
 		mutation{"removekeys-table-driven-wrong-column", "kv/sqlite3/provider.go", "			if _, err := tx.Exec(\"DELETE FROM `simple_entries` WHERE `key` IN (\"+ph+\")\", args...); err != nil {\n				return err\n			}\n			if _, err := tx.Exec(\"DELETE FROM `prefix_entries` WHERE `prefix` IN (\"+ph+\")\", args...); err != nil {\n				return err\n			}\n			if _, err := tx.Exec(\"DELETE FROM `lease_entries` WHERE `owner` IN (\"+ph+\")\", args...); err != nil {\n				return err\n			}\n			if _, err := tx.Exec(\"DELETE FROM `key_trackers` WHERE `key` IN (\"+ph+\")\", args...); err != nil {\n				return err\n			}", "			for _, target := range removeKeysTargetsBad {\n				query := \"DELETE FROM `\" + target.table + \"` WHERE `\" + target.column + \"` IN (\" + ph + \")\"\n				if _, err := tx.Exec(query, args...); err != nil {\n					return err\n				}\n			}", "table-coverage"},
 		mutation{"removekeys-prefix-by-child", "kv/sqlite3/provider.go", "DELETE FROM `prefix_entries` WHERE `prefix` IN (", "DELETE FROM `prefix_entries` WHERE `child` IN (", "table-coverage"},
@@ -112,6 +113,7 @@ func scanCompleteRule(c *Ctx, rule string) {
 
 func runC16(c *Ctx) {
 	scanCompleteRule(c, "listing")
+	rowsCompleteRule(c, "listing")
 	// contract: allowed ⊇ returned ⊇ required
 	allowed := map[string][]string{
 		"Put": {"ErrKVSimpleConflict"}, "Delete": {"ErrKVSimpleConflict"}, "Get": {},
@@ -464,8 +466,92 @@ func freshScanTargets(c *Ctx, rule string) {
 	c.Floor("Scan destinations of no-row-tolerant scans inside loops (kv/sqlite3)", n, 2)
 }
 
+// rowsCompleteRule: a database/sql row loop ends either because the rows are exhausted or
+// because iteration failed (rows.Next() returns false in both cases). A listing that
+// returns success without consulting rows.Err() after the loop silently reports a
+// truncated result; a break out of the loop does the same. For every `for rows.Next()`
+// in kv/sqlite3: no break, and every success return after the loop has consulted
+// rows.Err() of the same rows.
+func rowsCompleteRule(c *Ctx, rule string) {
+	n := 0
+	for _, fn := range c.AllFuncs("kv/sqlite3") {
+		ast.Inspect(fn.Body, func(m ast.Node) bool {
+			loop, ok := m.(*ast.ForStmt)
+			if !ok || loop.Cond == nil || loop.Init != nil {
+				return true
+			}
+			g := fn.enclosing(loop)
+			call, ok := ast.Unparen(loop.Cond).(*ast.CallExpr)
+			if !ok || !strings.HasSuffix(g.CallKey(call), "database/sql.Rows.Next") {
+				return true
+			}
+			rowsVar := g.varOf(call.Fun.(*ast.SelectorExpr).X)
+			if rowsVar == nil {
+				return true
+			}
+			n++
+			name := strings.TrimPrefix(fn.Name, "kv/sqlite3.") + "#" + rowsVar.Name()
+			// no break
+			brk := false
+			var scan func(x ast.Node, depth int)
+			scan = func(x ast.Node, depth int) {
+				ast.Inspect(x, func(y ast.Node) bool {
+					switch z := y.(type) {
+					case *ast.FuncLit:
+						return false
+					case *ast.ForStmt, *ast.RangeStmt, *ast.SwitchStmt, *ast.SelectStmt, *ast.TypeSwitchStmt:
+						if y != x {
+							scan(y, depth+1)
+							return false
+						}
+					case *ast.BranchStmt:
+						if (z.Tok == token.BREAK && (depth == 0 || z.Label != nil)) || z.Tok == token.GOTO {
+							brk = true
+						}
+					}
+					return true
+				})
+			}
+			scan(loop.Body, 0)
+			c.Ob(rule, name+"-loop-runs-to-exhaustion", loop.Pos(), !brk, "the row loop is not left by break/goto: every row is consumed")
+			// success exits after the loop consult Err()
+			isErrCall := func(x ast.Node) bool {
+				found := false
+				ast.Inspect(x, func(y ast.Node) bool {
+					if cl, ok := y.(*ast.CallExpr); ok {
+						if se, ok := cl.Fun.(*ast.SelectorExpr); ok && se.Sel.Name == "Err" && g.varOf(se.X) == rowsVar {
+							found = true
+						}
+					}
+					return !found
+				})
+				return found
+			}
+			_, exits := g.Reach(loop.Cond, isErrCall, func(b *cfgBlock, si int) bool {
+				// leave the loop: do not walk the body (its returns are failures of Scan)
+				return len(b.Nodes) > 0 && b.Nodes[len(b.Nodes)-1] == ast.Node(loop.Cond) && si == 0
+			})
+			bad := 0
+			for _, ex := range exits {
+				if ex.Ret == nil || len(ex.Ret.Results) == 0 {
+					bad++
+					continue
+				}
+				last := ex.Ret.Results[len(ex.Ret.Results)-1]
+				if isNilIdent(g.Info, last) {
+					bad++
+				}
+			}
+			c.Ob(rule, name+"-Err-consulted-before-success", loop.Pos(), bad == 0, fmt.Sprintf("after the row loop, success is returned only after %s.Err() was consulted (Next() also returns false when iteration failed: the listing would be silently truncated); %d success exit(s) skip it", rowsVar.Name(), bad))
+			return true
+		})
+	}
+	c.Floor("row loops in kv/sqlite3", n, 4)
+}
+
 func runC17(c *Ctx) {
 	freshScanTargets(c, "export-fresh")
+	rowsCompleteRule(c, "rows-complete")
 	between := c.Func("spec/chord", "", "Between")
 	stmts := sqliteStatements(c)
 	rk := c.Func("kv/sqlite3", "SqliteKV", "RangeKeys")
